@@ -539,7 +539,8 @@ def _case(draw, tier):
 
 @st.composite
 def _message(draw, ops):
-    err = draw(st.sampled_from([1, 133, 0, 255]))
+    # status codes: the ones with a description, and the many legal ones without (ATT 0x12, HCI 0x3B, negative, large)
+    err = draw(st.one_of(st.sampled_from([1, 133, 0, 255]), st.sampled_from([0x12, 0x3B, 19, 34, 62, 8, 13, 7, 256, -1, -2, 2**31 - 1, -(2**31)]), st.integers(-130, 300)))
     if ops and draw(st.booleans()):
         o = draw(st.sampled_from(ops))
         a, h = o["addr"], o.get("handle", 1)
@@ -611,6 +612,12 @@ def enumerated(tier):
                 yield {"noise": False, "ops": [base], "chunks": [{"t": 9, "msgs": [mm]}]}
                 # the same message followed, in the same chunk, by a connection change for the address
                 yield {"noise": handle == 2, "ops": [base], "chunks": [{"t": 9, "msgs": [mm, {"k": "conn", "addr": A, "connected": False, "mtu": 0, "error": 19}]}]}
+    # every status code -130..300 (described or not) as a GATT error for a pending read and as a drop reason for a pending write
+    for code in list(range(-130, 301)) + [2**31 - 1, -(2**31)]:
+        yield {"noise": False, "ops": [{"id": "op0", "kind": "read", "addr": A, "t": 2, "timeout": 1, "handle": 1, "dtimeout": 1, "flavour": "v1", "address_type": None, "end": "stop"}],
+               "chunks": [{"t": 9, "msgs": [{"k": "gatterr", "addr": A, "handle": 1, "error": code}]}]}
+        yield {"noise": False, "ops": [{"id": "op0", "kind": "write", "addr": A, "t": 2, "timeout": 1, "handle": 1, "dtimeout": 1, "flavour": "v1", "address_type": None, "end": "stop", "response": True}],
+               "chunks": [{"t": 9, "msgs": [{"k": "conn", "addr": A, "connected": False, "mtu": 0, "error": code}]}]}
     # an established device connection whose state callback unsubscribes itself when the device drops, while n GATT
     # calls on that address (and one on another address) are pending: each of them gets its own outcome
     for n in (1, 2, 5):
